@@ -459,6 +459,16 @@ def check(pid, tier, seed):
         'wall_s': round(time.time() - t0, 2),
         'violations': len(violations),
     }
+    if discharged == 0:
+        # no proof obligation was discharged on this run (the theorems did not build against the current source): the
+        # evidence must not claim the level `proof`; what this run did establish is the differential correspondence
+        if lines:
+            ev['level'] = 'translation_validation'
+            ev['coverage']['programs'] = len(lines)
+        else:
+            ev['level'] = 'other'
+            ev['coverage']['explanation'] = ('neither the proof obligations nor the correspondence could be run against the current '
+                                             'source: ' + '; '.join(broken_ties[:3]))[:2000]
     json.dump(ev, open(os.path.join(VERIF, 'evidence', pid + '.json'), 'w'), indent=1)
     for path, suffix in violations:
         print('VIOLATION property=%s replay=%s%s' % (pid, path, suffix))
